@@ -214,6 +214,7 @@ PROPS = {
         level_note=_TOKEN_NOTE,
     ),
     "C17": dict(
+        tie=["Ucan.Props.Tie.ContainerEntry"],
         props_module="Ucan.Props.C17",
         streams=["container"],
         filter=_container_filter(False),
@@ -222,6 +223,7 @@ PROPS = {
         level_note=_CTN_NOTE,
     ),
     "C18": dict(
+        tie=["Ucan.Props.Tie.ContainerEntry"],
         props_module="Ucan.Props.C18",
         streams=["container", "cidstream"],
         filter=_container_filter(True),
